@@ -73,6 +73,17 @@ func genC20(r *Rng, e *Emitter, n int) {
 		} else if r.chance(1, 8) {
 			thr = r.Float64() * float64(grid)
 		}
+		if shape != 6 && r.chance(1, 5) {
+			// the same figure at another scale (a power of two: every product and quotient scales
+			// exactly, so the retained indexes must be the same): micro-units, or kilometres in mm
+			k := []int{-40, -32, -20, -10, 10, 20, 30}[r.Intn(7)]
+			sc := math.Ldexp(1, k)
+			for q := 0; q < len(flat); q += stride {
+				flat[q], flat[q+1] = flat[q]*sc, flat[q+1]*sc
+			}
+			thr *= sc
+			e.tally("scaled")
+		}
 		e.tally(fmt.Sprintf("stride=%d", stride))
 		e.tally(fmt.Sprintf("shape=%d", shape))
 		if thr == 0 {
